@@ -311,6 +311,9 @@ def _dict_codings():
 
 
 OTHER_CODINGS = OTHER_CODINGS + _dict_codings()
+# transfer parameters with quoted strings (no comma inside: the crate splits at every comma, and so does the reference),
+# quoted pairs, an unbalanced quote (eleventh round: a quote-aware splitter that lost count at `\"`)
+OTHER_CODINGS = OTHER_CODINGS + [b'foo;a="x\\""', b'a;p="\\\\"', b'b;q="\\""', b'c;d="', b'gzip;q="1"', b'x;y="a b"', b'"quoted"', b"foo;a=b", b"gzip ;q=1", b"foo ; a=b"]
 
 
 def tokens_of(values):
